@@ -282,6 +282,9 @@ def run(prog, rep):
     rep.floor("C06.4", 1)
 
 
+# generic robustness battery: renaming every local/parameter in these files must not change any verdict
+RENAME_LOCALS = ['src/psemaphore-posix.c']
+
 SELFTEST = [
     dict(id="create-reopen-without-ocreat", file="src/psemaphore-posix.c", expect="C06.1",
          old="\t\t\t\topen_flags = O_CREAT;", new="\t\t\t\topen_flags = 0;"),
